@@ -71,6 +71,18 @@ impl PhoneticSuggestion {
         }
     }
 
+    /// Replaces the user's auto-correct entries.
+    ///
+    /// The cached suggestions embed the auto-correct item of their word,
+    /// so the cache is dropped along with the old entries.
+    pub(crate) fn set_user_autocorrect(
+        &mut self,
+        user_autocorrect: HashMap<String, String, RandomState>,
+    ) {
+        self.user_autocorrect = user_autocorrect;
+        self.cache.clear();
+    }
+
     /// Add suffix(গুলো, মালা, etc.) to the dictionary suggestions and return them.
     ///
     /// This function gets the suggestion list from the stored cache.
